@@ -91,7 +91,15 @@ class C14(core.Prop):
                 kind = v["kind"]
                 x = drvgen.random_value(rng, kind)
                 r = rng.random()
-                if r < 0.3:
+                if kind == "Switch" and r < 0.3 and rng.random() < 0.5:
+                    # the other driver-side ways of assigning a switch: bool_value and the vector's selected_values
+                    reads = any(h["event"] == "read" for e in v["elements"] for h in e["handlers"])
+                    if rng.random() < 0.5 or reads:
+                        # (selected_values first reads the current selection; the model of that setter has no Read events)
+                        ops.append(["assign", vname, i, rng.random() < 0.5])
+                    else:
+                        ops.append(["selected", vname, sorted(rng.sample(range(len(v["elements"])), rng.randint(0, len(v["elements"]))))])
+                elif r < 0.3:
                     ops.append(["assign", vname, i, x])
                     if rng.random() < 0.4:
                         ops.append(["assign", vname, i, x])          # unchanged value
